@@ -290,6 +290,10 @@ func (s *Server) acceptLoop() {
 		}
 		if tc, ok := c.(*net.TCPConn); ok {
 			tc.SetNoDelay(true)
+			// when the scenario's process ends, reset rather than linger: thousands of scenarios per minute would
+			// otherwise exhaust the ephemeral ports with TIME_WAIT sockets (an orderly Close() in a scenario still
+			// sends FIN through CloseWrite)
+			tc.SetLinger(0)
 		}
 		s.mu.Lock()
 		conn := &Conn{S: s, c: c, ID: len(s.conns) + 1}
